@@ -78,8 +78,16 @@ Section ExpandProofs.
     destruct ts as [|a [|b [|c [|d [|e r]]]]]; reflexivity.
   Qed.
 
+  Lemma four_tokens_checked_plain tokens :
+    (List.length tokens = 1%nat \/ has_wide_keyword tokens = false) -> four_tokens_checked tokens = four_tokens tokens.
+  Proof.
+    intros [H|H]; unfold four_tokens_checked.
+    - destruct tokens as [|a [|b r]]; try discriminate; reflexivity.
+    - rewrite H. destruct tokens as [|a [|b r]]; reflexivity.
+  Qed.
+
   Theorem four_sides_rule tokens name :
-    any_var tokens = false ->
+    any_var tokens = false -> (List.length tokens = 1%nat \/ has_wide_keyword tokens = false) ->
     expand_four_sides tokens name =
     match four_spec tokens with
     | None => Invalid
@@ -87,8 +95,17 @@ Section ExpandProofs.
         validate_each (combine (four_names name) [[top]; [right_]; [bottom]; [left_]])
     end.
   Proof.
-    intro H. unfold C07Expand.expand_four_sides. rewrite H, four_tokens_is_spec.
+    intros H W. unfold C07Expand.expand_four_sides. rewrite H, (four_tokens_checked_plain _ W), four_tokens_is_spec.
     destruct (four_spec tokens) as [[[[a b] c] d]|]; reflexivity.
+  Qed.
+
+  (* inherit / initial among several components: the declaration is invalid (css-cascade 7.3) *)
+  Theorem wide_keyword_only_alone tokens name :
+    any_var tokens = false -> (2 <= List.length tokens)%nat -> has_wide_keyword tokens = true ->
+    expand_four_sides tokens name = Invalid.
+  Proof.
+    intros H L W. unfold C07Expand.expand_four_sides, four_tokens_checked. rewrite H, W.
+    destruct tokens as [|a [|b r]]; simpl in L; try lia; reflexivity.
   Qed.
 
   Theorem four_sides_count (tokens : list tok) :
@@ -104,13 +121,14 @@ Section ExpandProofs.
 
   (* what the shorthand yields is what the four longhand declarations yield *)
   Theorem four_sides_equals_longhands tokens name top right_ bottom left_ out :
-    any_var tokens = false -> four_spec tokens = Some (top, right_, bottom, left_) ->
+    any_var tokens = false -> (List.length tokens = 1%nat \/ has_wide_keyword tokens = false) ->
+    four_spec tokens = Some (top, right_, bottom, left_) ->
     Forall (fun n => known n = true /\ supported n = true) (four_names name) ->
     expand_four_sides tokens name = Ok out ->
     Forall2 (fun nv nt => vns [snd nt] (fst nt) false = Ok [nv])
             out (combine (four_names name) [top; right_; bottom; left_]).
   Proof.
-    intros Hv Hs Hk H. rewrite four_sides_rule, Hs in H by assumption.
+    intros Hv Hw Hs Hk H. rewrite four_sides_rule, Hs in H by assumption.
     apply validate_each_ok in H.
     unfold four_names in *. simpl in *.
     inversion Hk as [|? ? [K1 S1] Hk1]; subst. inversion Hk1 as [|? ? [K2 S2] Hk2]; subst.
@@ -607,10 +625,10 @@ Section ExpandProofs.
   (* css-flexbox-1 7.1: none | [ <flex-grow> <flex-shrink>? || <flex-basis> ] ; omitted grow and shrink are 1,
      an omitted basis is 0 ; a unitless zero not preceded by two factors is a factor *)
   Theorem flex_rule g s b z G S Z0 :
-    get_keyword g = None -> is_int_zero g = false -> is_flex_basis g = false -> flex_factor g = Some G ->
-    get_keyword s = None -> is_int_zero s = false -> is_flex_basis s = false -> flex_factor s = Some S ->
-    is_int_zero b = false -> is_flex_basis b = true -> kw_is b "none" = false -> flex_factor b = None ->
-    is_int_zero z = true -> get_keyword z = None -> flex_factor z = Some Z0 -> is_flex_basis z = true ->
+    get_keyword g = None -> is_num_zero g = false -> is_flex_basis g = false -> flex_factor g = Some G ->
+    get_keyword s = None -> is_num_zero s = false -> is_flex_basis s = false -> flex_factor s = Some S ->
+    is_num_zero b = false -> is_flex_basis b = true -> kw_is b "none" = false -> flex_factor b = None ->
+    is_num_zero z = true -> get_keyword z = None -> flex_factor z = Some Z0 -> is_flex_basis z = true ->
     flex_inner [TIdent "none" "none"] = flex_yield (0%Q, Some 0%Z) (0%Q, Some 0%Z) AUTO /\
     flex_inner [g] = flex_yield G ONE ZERO_PX /\
     flex_inner [g; s] = flex_yield G S ZERO_PX /\
@@ -638,15 +656,15 @@ Section ExpandProofs.
       rewrite ?Zg, ?Zs, ?Zb, ?Zz, ?Bg, ?Bs, ?Bb, ?Bz, ?Fg, ?Fs, ?Fz, ?Fb; simpl; try reflexivity.
   Qed.
 
-  (* not in the grammar (the two factors must be adjacent) and yet accepted: a finding *)
-  Theorem flex_accepts_basis_between_factors g s b G S :
-    get_keyword g = None -> is_int_zero g = false -> is_flex_basis g = false -> flex_factor g = Some G ->
-    is_int_zero s = false -> is_flex_basis s = false -> flex_factor s = Some S ->
-    is_int_zero b = false -> is_flex_basis b = true ->
-    flex_inner [g; b; s] = flex_yield G S b.
+  (* the two factors must be adjacent: a basis between them is invalid (it used to be accepted: F133, repaired) *)
+  Theorem flex_rejects_basis_between_factors g s b G S :
+    get_keyword g = None -> is_num_zero g = false -> is_flex_basis g = false -> flex_factor g = Some G ->
+    is_num_zero s = false -> is_flex_basis s = false -> flex_factor s = Some S ->
+    is_num_zero b = false -> is_flex_basis b = true ->
+    flex_inner [g; b; s] = Invalid.
   Proof.
     intros Kg Zg Bg Fg Zs Bs Fs Zb Bb.
-    unfold C07Expand.flex_inner, flex_yield, single_kw_in, get_single_keyword. simpl.
+    unfold C07Expand.flex_inner, single_kw_in, get_single_keyword. simpl.
     rewrite ?Zg, ?Zs, ?Zb, ?Bg, ?Bs, ?Bb, ?Fg, ?Fs; simpl.
     rewrite ?Zg, ?Zs, ?Zb, ?Bg, ?Bs, ?Bb, ?Fg, ?Fs; simpl.
     rewrite ?Zg, ?Zs, ?Zb, ?Bg, ?Bs, ?Bb, ?Fg, ?Fs; simpl. reflexivity.
